@@ -1256,7 +1256,9 @@ func stateAnyCommentStart(s *Scanner, c byte) state {
 		// any symbol inline user comment
 		s.annotation = annotationNone
 		s.step = stateInlineComment
-		return scanContinue
+		// The byte is passed on: a line break directly after `#` ends the
+		// (empty) comment instead of becoming its first byte.
+		return s.step(s, c)
 	} else if s.index < s.dataSize && s.data[s.index] == '#' { // third #
 		s.annotation = annotationNone
 		s.step = stateMultiLineComment
